@@ -35,7 +35,8 @@ import (
 type c54Case struct {
 	Kind string `json:"kind"`           // corpus | gen
 	File string `json:"file,omitempty"` // corpus: path relative to the gno root
-	API  string `json:"api"`            // file (FormatFile) | import (FormatImportFromSource) | source (FormatSource)
+	API  string `json:"api"`            // file (FormatFile) | import (FormatImportFromSource) | source (FormatSource) | package (FormatPackageFile, gen only)
+	Sib  string `json:"sib,omitempty"`  // gen, api=package: a second file of the same package
 	Src  string `json:"src,omitempty"`  // gen: the program text
 	Lvl  int    `json:"lvl,omitempty"`  // gen: comment-placement level of the layout mutation (informational)
 	ImpC bool   `json:"impc,omitempty"` // gen: comments inside import declarations (informational)
@@ -299,7 +300,20 @@ func c54Exec(ctx *vk.Ctx, c c54Case) error {
 		src, filename = []byte(c.Src), "gen.gno"
 		gr := c54GenResolver()
 		resolver = gr
-		if c.API == "import" {
+		if c.API == "package" {
+			sf, err := parser.ParseFile(token.NewFileSet(), "sib.gno", c.Sib, parser.SkipObjectResolution)
+			if err != nil {
+				return fmt.Errorf("harness: sibling file does not parse: %v", err)
+			}
+			extraTop = map[string]bool{}
+			c54TopLevel(sf, extraTop)
+			mk := func(main []byte) *c54MemPkg {
+				return &c54MemPkg{path: "gno.land/r/gen/pkg", name: sf.Name.Name, names: []string{"gen.gno", "sib.gno"},
+					files: map[string][]byte{"gen.gno": main, "sib.gno": []byte(c.Sib)}}
+			}
+			run.first = func() ([]byte, error) { return gf.NewProcessor(gr).FormatPackageFile(mk(src), filename) }
+			run.second = func(out []byte) ([]byte, error) { return gf.NewProcessor(gr).FormatPackageFile(mk(out), filename) }
+		} else if c.API == "import" {
 			run.first = func() ([]byte, error) { return gf.NewProcessor(gr).FormatImportFromSource(filename, src) }
 			run.second = func(out []byte) ([]byte, error) { return gf.NewProcessor(gr).FormatImportFromSource(filename, out) }
 		} else {
@@ -526,7 +540,7 @@ func c54Clip(s string) string {
 
 const c54Rule = "generated: rapid draws a Gno program from a grammar of declarations/statements/expressions/types with an import block over a 12-package universe " +
 	"(each package absent / imported+used / imported unused / used but missing / aliased / blank; two packages share a name, two have a path whose last element is not the name; grouped, ungrouped and several import declarations; comments on kept specs of a single declaration), " +
-	"then re-emits the token stream with drawn whitespace, blank lines, line breaks wherever no semicolon is inserted, explicit semicolons, trailing line comments at statement ends and own-line (line, block, multi-line) comments between statements; formatted with FormatImportFromSource or FormatSource against an in-memory resolver. " +
+	"then re-emits the token stream with drawn whitespace, blank lines, line breaks wherever no semicolon is inserted, explicit semicolons, trailing line comments at statement ends and own-line (line, block, multi-line) comments between statements; formatted with FormatImportFromSource, FormatSource, or FormatPackageFile (two-file package whose second file declares names that shadow package names) against an in-memory resolver. " +
 	"corpus: every .gno file under examples/ and gnovm/tests/files that parses, routed like `gno fmt` (FormatFile for package directories, FormatSource for filetests expecting an error, FormatImportFromSource otherwise) with the stdlibs+examples resolver. " +
 	"non-trivial = generated: the formatter changed the text; corpus: every parsed file (distinct by path)"
 
@@ -535,10 +549,13 @@ func TestC54_Gen(t *testing.T) {
 		ID: "C54", Name: "TestC54_Gen", Rule: c54Rule,
 		Draw: func(rt *rapid.T) c54Case {
 			c := c54Case{Kind: "gen", API: "import"}
-			if c54Uniform(rt, 0, 3, "api") == 0 {
+			switch c54Uniform(rt, 0, 4, "api") {
+			case 0:
 				c.API = "source"
+			case 1:
+				c.API = "package"
 			}
-			c.Src, c.Lvl, c.ImpC = c54DrawProgram(rt)
+			c.Src, c.Sib, c.Lvl, c.ImpC = c54DrawProgram(rt, c.API == "package")
 			return c
 		},
 		Exec: c54Exec,
